@@ -87,3 +87,45 @@ pub fn opt_tok(o: Option<u128>) -> String {
         Some(n) => n.to_string(),
     }
 }
+
+// ---------- allocation observer ----------
+// A pass-through global allocator that remembers, per thread, the largest single request since
+// the last reset.  Used by C06 to observe "refused before memory is reserved for it".
+use std::alloc::{GlobalAlloc, Layout, System};
+use std::cell::Cell;
+
+thread_local! {
+    static MAX_ALLOC: Cell<usize> = const { Cell::new(0) };
+}
+
+pub struct ObservingAlloc;
+
+unsafe impl GlobalAlloc for ObservingAlloc {
+    unsafe fn alloc(&self, layout: Layout) -> *mut u8 {
+        let _ = MAX_ALLOC.try_with(|m| {
+            if layout.size() > m.get() {
+                m.set(layout.size())
+            }
+        });
+        System.alloc(layout)
+    }
+    unsafe fn dealloc(&self, ptr: *mut u8, layout: Layout) {
+        System.dealloc(ptr, layout)
+    }
+    unsafe fn realloc(&self, ptr: *mut u8, layout: Layout, new_size: usize) -> *mut u8 {
+        let _ = MAX_ALLOC.try_with(|m| {
+            if new_size > m.get() {
+                m.set(new_size)
+            }
+        });
+        System.realloc(ptr, layout, new_size)
+    }
+}
+
+pub fn reset_max_alloc() {
+    MAX_ALLOC.with(|m| m.set(0));
+}
+
+pub fn max_alloc() -> usize {
+    MAX_ALLOC.with(|m| m.get())
+}
